@@ -71,7 +71,12 @@ def mc_event(case):
     """case: {tid, logic, K, f, mode, naming, shuf (int|None), cert (int|None), F (list|None)}"""
     rng = random.Random(case['shuf']) if case.get('shuf') is not None else None
     K = case['K']
-    k, name, index_of = mk_kripke(K, case.get('naming', 'int'), rng=rng)
+    # initial states are irrelevant to the semantics of modelcheck: vary them (none / some / all)
+    t = case.get('tid', 0)
+    S0 = case.get('S0')
+    if S0 is None:
+        S0 = [] if t % 3 == 0 else [i for i in range(K['n']) if (i + t) % 3 == 0] if t % 3 == 1 else [t % K['n']]
+    k, name, index_of = mk_kripke(K, case.get('naming', 'int'), rng=rng, S0=S0)
     try:
         formula = build_formula(case['logic'], case['f'], case.get('mode', 'obj'))
     except Exception as ex:       # constructing a well-formed formula must not fail
